@@ -443,7 +443,7 @@ def simple_account(v, trace, res, fam, module, key=lambda e: e, sample=lambda e:
     for b in res.get("bad", []):
         e = evs[b["i"] - 1]
         if os.environ.get("VERIF_DEBUG"):
-            vf.log("bad: %s %s" % (b["failing"], json.dumps(e)[:400]))
+            vf.log("bad: %s %s" % (b["failing"], json.dumps(e)[:int(os.environ.get("VERIF_DEBUG_LEN", "400"))]))
         desc = {"op": fam, "failing": sorted(b["failing"]), "kind": e.get("kind", "")}
         if describe:
             desc.update(describe(e))
